@@ -20,6 +20,7 @@
 
 """SOCKS forwarding support"""
 
+import asyncio
 from ipaddress import ip_address
 from typing import TYPE_CHECKING, Callable, Optional
 
@@ -68,10 +69,20 @@ class SSHSOCKSForwarder(SSHLocalForwarder):
         self._host = ''
         self._port = 0
 
+    def connection_made(self, transport: asyncio.BaseTransport) -> None:
+        """Handle a newly opened connection"""
+
+        super().connection_made(transport)
+
+        # Until the SOCKS request is complete there's no channel which
+        # would close this connection when the SSH connection ends
+        self._conn.add_pending_forwarder(self)
+
     def close(self) -> None:
         """Close this SOCKS forwarder, ending any request parsing"""
 
         self._recv_handler = None
+        self._conn.remove_pending_forwarder(self)
         super().close()
 
     def _connect(self) -> None:
@@ -80,6 +91,7 @@ class SSHSOCKSForwarder(SSHLocalForwarder):
         assert self._transport is not None
 
         self._recv_handler = None
+        self._conn.remove_pending_forwarder(self)
 
         orig_host, orig_port = self._transport.get_extra_info('peername')[:2]
         self.forward(self._host, self._port, orig_host, orig_port)
